@@ -605,10 +605,15 @@ class Program:
                     for g in self.funcs.values():
                         if fid in g.d.get('overrides', []):
                             out.add(g.id)
-        # lambdas defined in fn are considered called by it
+        # lambdas defined in fn are considered called by it; so is every function whose address fn takes (dispatch tables)
         for n in fn.all_nodes():
             if n.get('lambda') and n['lambda'] in self.funcs:
                 out.add(n['lambda'])
+            r = n.get('ref')
+            if r and r.get('k') in ('Method', 'Func') and r.get('fid') in self.funcs and n['k'] == 'DeclRefExpr':
+                par = fn.parent(n)
+                if par is not None and par['k'] == 'UnaryOperator' and par.get('op') == '&':
+                    out.add(r['fid'])
         return out
 
     def reachable_from(self, roots, stop=()):
